@@ -166,7 +166,8 @@ class ZoneAnalysis:
         for s in zf.sites:
             if s.status == 'pre':
                 pre.append(s)
-        summ = {'retlen': retlen, 'pre': pre, 'post': self._post_ok(zf), 'retlen_lb': self._retlen_lb(zf), 'retelem': self._retelem(zf)}
+        summ = {'retlen': retlen, 'pre': pre, 'post': self._post_ok(zf), 'retlen_lb': self._retlen_lb(zf), 'retelem': self._retelem(zf),
+                'post_true': self._post_true_params(zf)}
         self._inprog.discard(path)
         self._summ[path] = summ
         return summ
@@ -191,6 +192,46 @@ class ZoneAnalysis:
             common = fs if common is None else (common & fs)
         return sorted(common or [], key=str)
 
+    def _post_true_params(self, zf):
+        """indexes of `bool` parameters that are true at every Ok / Some return (`fn ensure(cond: bool, ..) -> Result<(), E>`)"""
+        body, fd = zf.body, zf.fd
+        if not body.local_ty(0).startswith(('std::result::Result', 'std::option::Option')):
+            return []
+        accept = [bi for bi, blk in enumerate(body.blocks) if not blk['cleanup'] and any(
+            s['k'] == 'assign' and s['dst']['l'] == 0 and not s['dst'].get('p') and s['rv']['k'] == 'agg' and s['rv'].get('variant') in ('Ok', 'Some') for s in blk['stmts'])]
+        if not accept:
+            return []
+        out = []
+        for k in range(1, body.arg_count + 1):
+            if body.local_ty(k) != 'bool':
+                continue
+            ok = True
+            for a in accept:
+                dominated = False
+                for sb, blk in enumerate(body.blocks):
+                    t = blk['term']
+                    if blk['cleanup'] or t['k'] != 'switch' or t['discr']['k'] not in ('copy', 'move') or t['discr']['pl'].get('p'):
+                        continue
+                    dl = t['discr']['pl']['l']
+                    for _ in range(3):
+                        if dl == k:
+                            break
+                        d = zf.single_def(dl)
+                        if d and d[0] == 'assign' and d[2]['rv']['k'] == 'use' and d[2]['rv']['op']['k'] in ('copy', 'move') and not d[2]['rv']['op']['pl'].get('p'):
+                            dl = d[2]['rv']['op']['pl']['l']
+                        else:
+                            break
+                    if dl != k:
+                        continue
+                    zero_t = [x for v, x in t['targets'] if v == '0']
+                    true_edge = t['otherwise'] if zero_t and len(t['targets']) == 1 else None
+                    if true_edge is not None and zf._edge_dominates(sb, true_edge, a):
+                        dominated = True
+                ok = ok and dominated
+            if ok:
+                out.append(k)
+        return out
+
     def _retelem(self, zf):
         """[(k, T)]: every element e of the returned Vec<usize> satisfies e + k <= T (T over parameter symbols).  The vector must be a local
         created empty whose only mutation is `push`; each pushed value must be bounded at its push site."""
@@ -210,15 +251,23 @@ class ZoneAnalysis:
         if len(cr) != 1 or cr[0][0] != 'call' or not (cr[0][2].get('callee') or '').endswith(('Vec::<T>::new', 'Vec::<T>::with_capacity')):
             return []
         pushes = []
+        extends = []
         for bi, t in body.calls():
             cal = t.get('callee') or ''
             for ai, a in enumerate(t['args']):
                 if a['k'] in ('copy', 'move') and body.local_ty(a['pl']['l']).startswith('&mut ') and fd.resolve_place(a['pl'])[0] == root:
                     if cal == 'std::vec::Vec::<T, A>::push' and ai == 0:
                         pushes.append((bi, t))
+                    elif cal in ('std::iter::Extend::extend', 'std::vec::Vec::<T, A>::extend') and ai == 0 and len(t['args']) == 2:
+                        extends.append((bi, t))
                     else:
                         return []
-        if not pushes:
+        if extends and not pushes:
+            # filled from selected elements of a range: all below its end
+            sets = [set(self._retelem_of_chain(zf, t['args'][1])) for bi, t in extends]
+            common = set.intersection(*sets) if sets else set()
+            return sorted(common, key=str)
+        if not pushes or extends:
             return []
         cands = set()
         for k in range(1, body.arg_count + 1):
